@@ -145,15 +145,23 @@ func newOperatorScheme() *runtime.Scheme {
 type counter struct {
 	calls, writes int
 	snap          func(c client.Client) string
+	// the snapshot taken after the previous mutating call: every mutation of the store (the harness's own
+	// edits included) goes through this interceptor, so it is still what the store holds
+	last   string
+	cached bool
 }
 
 func (k *counter) reset() { k.calls, k.writes = 0, 0 }
 
 func (k *counter) around(c client.Client, f func() error) error {
-	before := k.snap(c)
+	before := k.last
+	if !k.cached {
+		before = k.snap(c)
+	}
 	err := f()
 	k.calls++
-	if k.snap(c) != before {
+	k.last, k.cached = k.snap(c), true
+	if k.last != before {
 		k.writes++
 	}
 	return err
